@@ -28,6 +28,10 @@ impl<T: AddAssign + Copy, const N: usize, E: Copy + Debug> Getter<T, E> for SumS
         //Ok(None) -> skip
         //Ok(Some(...)) -> add to value
         let mut outputs = [MaybeUninit::uninit(); N];
+        #[cfg(rrtk_verif)]
+        unsafe {
+            core::ptr::write_bytes(outputs.as_mut_ptr(), 0x7F, N);
+        }
         //This is always equal to the index of the next uninitialized slot if there is one.
         let mut outputs_filled = 0;
         for i in &self.addends {
@@ -192,6 +196,10 @@ impl<T: MulAssign + Copy, const N: usize, E> ProductStream<T, N, E> {
 impl<T: MulAssign + Copy, const N: usize, E: Copy + Debug> Getter<T, E> for ProductStream<T, N, E> {
     fn get(&self) -> Output<T, E> {
         let mut outputs = [MaybeUninit::uninit(); N];
+        #[cfg(rrtk_verif)]
+        unsafe {
+            core::ptr::write_bytes(outputs.as_mut_ptr(), 0x7F, N);
+        }
         let mut outputs_filled = 0;
         for i in &self.factors {
             match i.borrow().get()? {
